@@ -2048,8 +2048,8 @@ def truncate_json_overflow(data):
     elif isinstance(data, collections.abc.Iterable) and not isinstance(data, str):
         # Handle lists, tuples, arrays, etc., but not strings
         return [truncate_json_overflow(item) for item in data]
-    elif isinstance(data, (int, float, np.integer, np.floating)) and not (data % 1) and not (1 - 2**53 <= data <= 2**53 - 1):
-        return min(max(data, 1 - 2**53), 2**53 - 1)  # Truncate integers to fit in JSON (53 bits max)
+    elif isinstance(data, (int, float, np.integer, np.floating)) and not (data % 1) and not (1 - 2**53 <= int(data) <= 2**53 - 1):
+        return min(max(int(data), 1 - 2**53), 2**53 - 1)  # Truncate integers to fit in JSON (53 bits max)
     elif isinstance(data, (float, np.floating)) and (float(data) < -1.7976e308 or float(data) > 1.7976e308):
         return min(max(float(data), -1.7976e308), 1.7976e308)  # (Approx.) truncate floats to fit in JSON to avoid inf
     return data
